@@ -201,6 +201,12 @@ class Shim:
         ck = self.plan.get('crash')
         if ck is not None and self.nmut == ck:
             raise Crash()
+        ra = self.plan.get('raise_at')     # [k, 'RecursionError'|'MemoryError'] : the interpreter's own limits are hit there (a tree too deep
+        if ra is not None and self.nmut == ra[0]:    # for the recursive rmtree, no memory): an Exception that is no OSError
+            raise {'RecursionError': RecursionError, 'MemoryError': MemoryError}[ra[1]]('injected before the %d-th mutation' % ra[0])
+        rk = self.plan.get('raise_kinds')  # [[kinds], exc] : EVERY mutation of these kinds hits that limit (unlink/rmdir = inside rmtree: the tree
+        if rk is not None and name in rk[0]:         # is too deep for it, now and on every later attempt)
+            raise {'RecursionError': RecursionError, 'MemoryError': MemoryError}[rk[1]]('injected at every %s' % name)
         sf = self.plan.get('sysfault')     # [k, errno] : the k-th syscall-level mutation fails
         if sf is not None and self.nmut == sf[0]:
             raise OSError(sf[1], os.strerror(sf[1]))
@@ -633,7 +639,19 @@ def _child(root, scn, step, resfile, outf, errf):
     sys.argv = [PROG[cmd]] + list(step.get('argv') or [])
     stdin = step.get('stdin')
     sys.stdin = io.StringIO(stdin if stdin is not None else '')
-    out = io.TextIOWrapper(io.FileIO(outf, 'w'), encoding='utf-8', errors='strict', write_through=True)
+    raw_out = io.FileIO(outf, 'w')
+    if step.get('stdout_breaks') is not None:
+        # whoever was reading our standard output goes away after so many writes (trash-empty -v | head): EPIPE from then on
+        class _Breaking(io.FileIO):
+            left = int(step['stdout_breaks'])
+
+            def write(self, b):
+                if _Breaking.left <= 0:
+                    raise BrokenPipeError(32, 'Broken pipe')
+                _Breaking.left -= 1
+                return io.FileIO.write(self, b)
+        raw_out = _Breaking(outf, 'w')
+    out = io.TextIOWrapper(raw_out, encoding='utf-8', errors='strict', write_through=True)
     err = io.TextIOWrapper(io.FileIO(errf, 'w'), encoding='utf-8', errors='backslashreplace', write_through=True)
     sys.stdout, sys.stderr = out, err
     # clock
